@@ -178,7 +178,7 @@ class StatusMonitor(Monitor):
         elif st == "paused":
             stt = ev["post"]["state"]
             held = [r for r in stt["sequence"] if r.get("status") in ("paused", "pending")]
-            if not run.ctl["pause_req"] and not held and not run.ctl.get("resumed_before_rest"):
+            if not run.ctl["pause_req"] and not held and not run.ctl.get("resumed_before_rest") and not run.ctl.get("task_wait_seen"):
                 run.viol("C03", "paused_without_reason", "workflow is paused with no pause request outstanding and no "
                          "paused or pending task", subject=st)
 
